@@ -98,6 +98,8 @@ func (c *Ctx) sameSigner(fn *ssa.Function) {
 }
 
 func checkC02(c *Ctx) {
+	// the digest that is compared covers exactly the bytes being verified (shared with C01)
+	checkC01(c)
 	e := c.accept()
 	all := append([]*fact{factImageDigest, factDigestAlg}, pkcs7Facts...)
 	if fn := c.Fn("A", "authenticode.(*PECOFFBinary).Verify"); fn != nil {
